@@ -6,7 +6,7 @@ D=$(mktemp -d /var/tmp/mut-$S-XXXX)
 # regenerated models are written into coq/Cxx/Gen.v: keep the real ones and put them back afterwards
 G=$(mktemp -d /var/tmp/mut-gen-XXXX)
 (cd /verif/coq && for f in */Gen.v; do mkdir -p "$G/$(dirname $f)"; cp -p "$f" "$G/$f"; done)
-trap 'rm -rf "$D"; (cd /verif/coq && for f in */Gen.v; do cmp -s "$G/$f" "$f" || cp -p "$G/$f" "$f"; done); rm -rf "$G"' EXIT
+trap 'rm -rf "$D"; (cd /verif/coq && for f in */Gen.v; do cmp -s "$G/$f" "$f" || { cp "$G/$f" "$f"; touch "$f"; }; done); rm -rf "$G"' EXIT
 mkdir -p "$D" && cp -r /repo/src "$D/src" && rm -f "$D"/src/*.so
 (cd "$D" && patch -s -p1 < /verif/seeded/$S/patch.diff)
 cd /verif && VERIF_REPO="$D" ./check "$C" --tier "$T" 2>&1 | grep -E "^(OK|VIOLATION|KNOWN-FINDING|CHECK-ERROR|BUILD-ERROR|  )" | head -12
